@@ -25,7 +25,9 @@ Record bfacts := mkBFacts {
   b_elem_index : iexp;                                 (* write_elem index formula (in i16 units) *)
   b_matrix_index : iexp; b_arg_left : idkind; b_arg_right : idkind;  (* reader side: ConnectionMatrix::index, lattice roles *)
   b_index_len : guard;                                 (* write_u32_array: error iff the number of ids fires this guard *)
-  b_index_checked : bool                               (* build_word_id_table writes every id list through write_u32_array *)
+  b_index_checked : bool;                              (* build_word_id_table writes every id list through write_u32_array *)
+  b_nul_raw_err : bool                                 (* parse_record rejects a surface whose CSV text contains a NUL byte (b_nul_err: whose DECODED
+                                                          value contains U+0000, which includes the escaped spellings \u0000, \u{0}, ...) *)
 }.
 
 (* ---------------- connection matrix text ---------------- *)
@@ -119,7 +121,8 @@ Record rec := mkRec {
   r_syn_ok : bool;                (* synonym column absent, `*`, or at most MAX_ARRAY_LEN u32 literals *)
   r_splits_concat : bool;         (* surfaces of the split units concatenate to the headword (the compiler never looks) *)
   r_surface_nul : bool;           (* the surface contains U+0000 *)
-  r_surface : N                   (* which surface (column 0, after unescaping): equal numbers = byte-identical surfaces *)
+  r_surface : N;                  (* which surface (column 0, after unescaping): equal numbers = byte-identical surfaces *)
+  r_surface_nul_raw : bool        (* the CSV text of the surface contains a NUL byte (implies r_surface_nul) *)
 }.
 
 Definition wid := (bool * Z)%type.   (* (user dictionary?, word) *)
@@ -147,7 +150,8 @@ Definition parse_wid_list (l : list widf) : option (list wid) :=
   end.
 
 Definition parse_record (r : rec) : option entry :=
-  if (18 <=? r_ncols r) && r_strings_ok r && negb (r_surface_empty r) && r_syn_ok r && negb (r_surface_nul r && b_nul_err F) then
+  if (18 <=? r_ncols r) && r_strings_ok r && negb (r_surface_empty r) && r_syn_ok r && negb (r_surface_nul r && b_nul_err F)
+     && negb (r_surface_nul_raw r && b_nul_raw_err F) then
     match num16 (r_left r), num16 (r_right r), num16 (r_cost r), r_mode r,
           parse_wid_list (r_split_a r), parse_wid_list (r_split_b r), parse_wid_list (r_wstruct r) with
     | Some l, Some rr, Some c, Some m, Some sa, Some sb, Some ws =>
@@ -339,7 +343,8 @@ Definition gen_bfacts : bfacts :=
            BuildGuards.conn_header_fields BuildGuards.conn_line_fields
            BuildGuards.write_elem_left_guards BuildGuards.write_elem_right_guards ConnIndex.write_elem_index
            ConnIndex.matrix_index ConnIndex.cost_arg_left ConnIndex.cost_arg_right
-           BuildGuards.u32_array_len_guard BuildGuards.word_id_table_through_write_u32_array.
+           BuildGuards.u32_array_len_guard BuildGuards.word_id_table_through_write_u32_array
+           BuildGuards.raw_nul_surface_is_error.
 
 Definition build := build_with gen_bfacts.
 Definition session := run_session gen_bfacts BuildGuards.conn_write_keeps_matrix.
